@@ -81,9 +81,9 @@ package keeper
 //@ ensures [complete]               ncalls("ConvertCoin") == 1 && callsok("ConvertCoin") ==>
 //@        bank(ctx) == callpost("ConvertCoin", bank) && evm(ctx) == callpost("ConvertCoin", evm) && aggregate(ctx) == callpost("ConvertCoin", aggregate) && supply(ctx) == callpost("ConvertCoin", supply) && auth(ctx) == callpost("ConvertCoin", auth)
 //@ callsite ConvertCoin [in-cache-context] goCtx == sdk.WrapSDKContext(cctx)
-//@ callsite ConvertCoin [message] msg.Coin.Denom == denom && msg.Coin.Amount == transferAmount && msg.Sender == receiver.String() && msg.Receiver == common.BytesToAddress(receiver.Bytes()).Hex()
-//@ callsite ConvertCoin [denom-from-dest-port] denom == first(types.IBCDenom(packet.DestinationPort, packet.DestinationChannel, data.Denom))
-//@ callsite ConvertCoin [amount-from-packet]   transferAmount == first(sdk.NewIntFromString(data.Amount)) && receiver == first(sdk.AccAddressFromBech32(data.Receiver))
+// (stated over the decoded packet data and pure functions of it, not over the hook's temporaries, so that renaming or
+// removing a local cannot make the clause unevaluable)
+//@ callsite ConvertCoin [message] msg.Coin.Denom == first(types.IBCDenom(packet.DestinationPort, packet.DestinationChannel, data.Denom)) && msg.Coin.Amount == first(sdk.NewIntFromString(data.Amount)) && msg.Sender == first(sdk.AccAddressFromBech32(data.Receiver)).String() && msg.Receiver == common.BytesToAddress(first(sdk.AccAddressFromBech32(data.Receiver)).Bytes()).Hex()
 
 // ---- token-pair registry (C12) --------------------------------------------------------------------
 // Three index families in the aggregate store: pairs (prefix 1 | id -> pair), byERC20 (prefix 2 | address -> id),
